@@ -54,8 +54,21 @@ def main(rep: Report, replay: dict | None, which=("A", "C", "B"), pair=False) ->
     )
     if replay:
         sc = replay["scenario"]
-        if sc.get("kind") == "trace":
+        kind = sc.get("kind")
+        if kind == "trace":
             iter_traces.replay_scenario(rep, sc)
+        elif kind == "ctor":  # the constructor table is small: replay = re-run the stage
+            from .. import ctor_replay
+
+            ctor_replay.run(rep)
+        elif kind == "seek":
+            from .. import seek_replay
+
+            seek_replay.run(rep)
+        elif kind == "design":
+            for name in which:
+                iter_replay.model_check(rep, name, 5)
+            straight(rep)
         else:
             iter_replay.replay_scenario(rep, sc)
         return
